@@ -468,6 +468,10 @@ impl Monitor for C06 {
                 }
             }
         }
+        // a result supplied under an id the host really holds as pending must be applied, not reported as unprocessed
+        if matches!(act, Action::Return { .. } | Action::DeliverReturn { .. }) && run.ret_code == crate::mon_local::codes::UNPROCESSED {
+            out.push(viol("C06/result-for-a-pending-request-reported-as-unprocessed", format!("peer {pname}: the results {:?} answer requests the host was handed and never answered before, yet the run returned code 30000 ({})", run.results.iter().map(|(id, _)| *id).collect::<Vec<_>>(), run.error_message)));
+        }
         // bogus ids
         if let Action::ReturnBogus { id, .. } = act {
             self.bogus_runs += 1;
